@@ -181,6 +181,20 @@ def check_minixr():
         return n, bad
     if tuple(cm["y"].dims) != tuple(cr_["y"].dims) or tuple(cm["x"].dims) != tuple(cr_["x"].dims):
         return n, "concat dims differ: %r vs %r" % (cm["y"].dims, cr_["y"].dims)
+    # concat of DataArrays gives a DataArray (as xarray), to which the swept coordinate is then assigned
+    das_m = [p["y"] for p in pieces]
+    das_r = [to_real(p)["y"] for p in pieces]
+    dm = mx.concat(das_m, dim="a")
+    dm["a"] = [10, 20, 30]
+    dr = xr.concat(das_r, dim="a")
+    dr["a"] = [10, 20, 30]
+    n += 1
+    if not isinstance(dm, mx.DataArray) or not isinstance(dr, xr.DataArray) or tuple(dm.dims) != tuple(dr.dims) \
+            or dm.name != dr.name:
+        return n, "concat of DataArrays: %r vs %r" % (type(dm), type(dr))
+    bad = same(dm.to_dataset(), dr.to_dataset(), "concat of DataArrays")
+    if bad:
+        return n, bad
     # concat of pieces whose internal coordinate differs (outer join) and join="override"
     pieces2 = [mx.Dataset(data_vars={"y": (("t",), [float(i), 2.0 + i])}, coords={"t": [i, i + 1]}) for i in range(3)]
     for jn in ("outer", "override"):
